@@ -354,9 +354,11 @@ class Kernel:
             for p in self.children():
                 if p.kind == "master2" and p.alive:
                     self.die(p, ev[1])
-        elif kind in ("parent-exit", "parent-killed"):
+        elif kind in ("parent-exit", "parent-killed", "parent-exit-subreaper"):
             old = self.ppid
-            self.ppid = 1
+            # orphans go to init - or to the nearest child subreaper (systemd --user, docker --init, tini -s)
+            self.ppid = 1 if kind != "parent-exit-subreaper" else 4242
+            kind = "parent-exit" if kind == "parent-exit-subreaper" else kind
             self.fs.live.discard(old)
             if kind == "parent-exit":
                 # an orderly exit of the old master removes its own pid file
